@@ -855,6 +855,209 @@ def _scale_down(fn: ast.FunctionDef) -> dict:
             'line': fn.lineno}
 
 
+# ---- side lists (cubemaps with / without sphere map) -------------------------------------------------------------
+def _if_else(stmts: list[ast.stmt]) -> list[ast.stmt]:
+    """`if c: return A` followed by the rest of the block  ==  `if c: return A  else: <rest>`"""
+    stmts = [s for s in stmts if not (isinstance(s, ast.Expr) and isinstance(s.value, ast.Constant))]
+    for i, st in enumerate(stmts):
+        if isinstance(st, ast.If) and not st.orelse and st.body and isinstance(st.body[-1], ast.Return) and stmts[i + 1:]:
+            new = ast.If(test=st.test, body=st.body, orelse=_if_else(stmts[i + 1:]))
+            return stmts[:i] + [ast.copy_location(new, st)]
+    return stmts
+
+
+def _side_list(tree: ast.Module, node: ast.expr, depth: int = 0) -> list[int]:
+    """value of a module-level expression denoting a list of CubeSide members, as indexes into the enum"""
+    if depth > 6:
+        _err(node, 'side list definition too deep')
+    cube = _find_class(tree, 'CubeSide')
+    members = [st.targets[0].id for st in cube.body if isinstance(st, ast.Assign) and isinstance(st.targets[0], ast.Name)
+               and isinstance(st.value, ast.Constant) and type(st.value.value) is int]
+    values = [st.value.value for st in cube.body if isinstance(st, ast.Assign) and isinstance(st.targets[0], ast.Name)
+              and isinstance(st.value, ast.Constant) and type(st.value.value) is int]
+    if len(set(values)) != len(values) or not members:
+        _err(cube, 'CubeSide has aliases or no members')
+    s = ast.unparse(node)
+    if s in ('list(CubeSide)', 'tuple(CubeSide)'):
+        return list(range(len(members)))
+    if isinstance(node, (ast.List, ast.Tuple)):
+        out = []
+        for e in node.elts:
+            if isinstance(e, ast.Attribute) and ast.unparse(e.value) == 'CubeSide' and e.attr in members:
+                out.append(members.index(e.attr))
+            else:
+                _err(e, f'side list element not understood: {ast.unparse(e)}')
+        return out
+    if isinstance(node, ast.Call) and ast.unparse(node.func) in ('list', 'tuple') and len(node.args) == 1:
+        return _side_list(tree, node.args[0], depth + 1)
+    if isinstance(node, ast.Subscript) and isinstance(node.slice, ast.Slice) and node.slice.step is None:
+        base = _side_list(tree, node.value, depth + 1)
+        def bound(b):
+            if b is None:
+                return None
+            try:
+                v = ast.literal_eval(b)
+            except Exception:
+                _err(b, 'slice bound of a side list is not a literal')
+            if type(v) is not int:
+                _err(b, 'slice bound of a side list is not an integer')
+            return v
+        return base[bound(node.slice.lower):bound(node.slice.upper)]
+    if isinstance(node, ast.Name):
+        defs = [st for st in tree.body if isinstance(st, (ast.Assign, ast.AnnAssign)) and st.value is not None
+                and any(isinstance(t, ast.Name) and t.id == node.id for t in (st.targets if isinstance(st, ast.Assign) else [st.target]))]
+        if len(defs) != 1:
+            _err(node, f'{node.id}: expected one module-level definition, found {len(defs)}')
+        return _side_list(tree, defs[0].value, depth + 1)
+    _err(node, f'side list not understood: {s}')
+
+
+def _sides_info(tree: ast.Module, vtf: ast.ClassDef) -> dict:
+    dr = _find_method(vtf, '_depth_range')
+    params = [a.arg for a in dr.args.args]
+    if dr.args.vararg or dr.args.kwarg or dr.args.kwonlyargs or not params or params[0] != 'self' or len(params) > 2:
+        _err(dr, f'_depth_range parameters: {params}')
+    body = _if_else(dr.body)
+    pname = params[1] if len(params) == 2 else None
+    falls_back = False
+    if pname is not None:
+        if len(dr.args.defaults) != 1 or not (isinstance(dr.args.defaults[0], ast.Constant) and dr.args.defaults[0].value is None):
+            _err(dr, '_depth_range: the version parameter must default to None')
+        if body and isinstance(body[0], ast.If) and ast.unparse(body[0].test) == f'{pname} is None' and not body[0].orelse \
+                and len(body[0].body) == 1 and ast.unparse(body[0].body[0]) == f'{pname} = self.version[1]':
+            falls_back = True
+            body = body[1:]
+        else:
+            _err(dr, '_depth_range: `if <param> is None: <param> = self.version[1]` not found')
+    if len(body) != 1 or not isinstance(body[0], ast.If) or ast.unparse(body[0].test) not in ('VTFFlags.ENVMAP in self.flags',):
+        _err(dr, '_depth_range: `if VTFFlags.ENVMAP in self.flags` not found')
+    top = body[0]
+    flat = _if_else(top.orelse)
+    if len(flat) != 1 or not isinstance(flat[0], ast.Return) or ast.unparse(flat[0].value) != 'range(self.depth)':
+        _err(top, '_depth_range: the non-cubemap branch does not return range(self.depth)')
+    inner = _if_else(top.body)
+    if len(inner) != 1 or not isinstance(inner[0], ast.If):
+        _err(top, '_depth_range: version test not found')
+    vt = inner[0]
+    t = vt.test
+    if not (isinstance(t, ast.Compare) and len(t.ops) == 1 and type(t.ops[0]) in CMP and isinstance(t.comparators[0], ast.Constant)
+            and type(t.comparators[0].value) is int):
+        _err(vt, f'_depth_range: version test not understood: {ast.unparse(t)}')
+    left = ast.unparse(t.left)
+    if left == 'self.version[1]':
+        uses_param = False
+    elif pname is not None and left == pname and falls_back:
+        uses_param = True
+    else:
+        _err(vt, f'_depth_range: version test on {left}')
+    th, el = _if_else(vt.body), _if_else(vt.orelse)
+    if len(th) != 1 or len(el) != 1 or not isinstance(th[0], ast.Return) or not isinstance(el[0], ast.Return):
+        _err(vt, '_depth_range: branches of the version test must return a side list')
+    info = {'cmp': CMP[type(t.ops[0])], 'threshold': t.comparators[0].value,
+            'then': _side_list(tree, th[0].value), 'else': _side_list(tree, el[0].value), 'uses_param': uses_param, 'line': dr.lineno}
+
+    def calls(fn, owner):
+        out = []
+        for n in ast.walk(fn):
+            if isinstance(n, ast.Call) and isinstance(n.func, ast.Attribute) and n.func.attr == '_depth_range':
+                if ast.unparse(n.func.value) != owner or n.keywords and [k.arg for k in n.keywords] != [pname]:
+                    _err(n, f'{fn.name}: _depth_range call not understood: {ast.unparse(n)}')
+                arg = n.args[0] if n.args else (n.keywords[0].value if n.keywords else None)
+                out.append((n, arg))
+        return out
+
+    def stores(fn, name):
+        return sum(1 for n in ast.walk(fn) if isinstance(n, ast.Name) and n.id == name and isinstance(n.ctx, ast.Store))
+
+    # ---- save: which minor version is handed to _depth_range
+    save = _find_method(vtf, 'save')
+    cs = calls(save, 'self')
+    if len(cs) != 1:
+        _err(save, f'save: {len(cs)} calls of _depth_range')
+    call, arg = cs[0]
+    written_name = None
+    for n in ast.walk(save):
+        if isinstance(n, ast.Call) and ast.unparse(n.func) == 'struct.pack' and len(n.args) == 3 and isinstance(n.args[2], ast.Name) \
+                and isinstance(n.args[1], ast.Name) and 'major' in n.args[1].id:
+            written_name = n.args[2].id
+    if written_name is None:
+        _err(save, 'save: the struct.pack of the version numbers not found')
+    if arg is None or not uses_param:
+        info['save'] = 'MObject'
+    elif isinstance(arg, ast.Name) and arg.id == written_name and stores(save, written_name) == 1:
+        info['save'] = 'MWritten'
+    elif ast.unparse(arg) == 'self.version[1]':
+        info['save'] = 'MObject'
+    else:
+        _err(call, f'save: argument of _depth_range not understood: {ast.unparse(arg)}')
+    # ---- read: the object under construction gets the version found in the file before the side list is asked for
+    read = _find_method(vtf, 'read')
+    cr = calls(read, 'vtf')
+    if len(cr) != 1:
+        _err(read, f'read: {len(cr)} calls of _depth_range')
+    rcall, rarg = cr[0]
+    file_minor = None
+    for n in ast.walk(read):
+        if isinstance(n, ast.Assign) and isinstance(n.value, ast.Call) and ast.unparse(n.value.func) == 'struct.unpack' \
+                and isinstance(n.targets[0], (ast.Tuple, ast.List)) and len(n.targets[0].elts) == 2 \
+                and all(isinstance(e, ast.Name) for e in n.targets[0].elts) and 'major' in n.targets[0].elts[0].id:
+            file_minor = n.targets[0].elts[1].id
+    if file_minor is None or stores(read, file_minor) != 1:
+        _err(read, 'read: the unpack of the version numbers not found')
+    if rarg is None or not uses_param:
+        vs = [n for n in ast.walk(read) if isinstance(n, ast.Assign) and ast.unparse(n.targets[0]) == 'vtf.version']
+        if len(vs) != 1 or not (isinstance(vs[0].value, ast.Tuple) and len(vs[0].value.elts) == 2 and ast.unparse(vs[0].value.elts[1]) == file_minor):
+            _err(read, 'read: vtf.version is not set to the version found in the file')
+        if c15_norm.seq(vs[0]) > c15_norm.seq(rcall):
+            _err(rcall, 'read: _depth_range() is called before vtf.version is set')
+        info['read'] = 'MWritten'
+    elif isinstance(rarg, ast.Name) and rarg.id == file_minor:
+        info['read'] = 'MWritten'
+    else:
+        _err(rcall, f'read: argument of _depth_range not understood: {ast.unparse(rarg)}')
+    # ---- compute_mipmaps and __init__ work on the frames the object has: no version argument
+    for name in ('compute_mipmaps', '__init__'):
+        for c, a in calls(_find_method(vtf, name), 'self'):
+            if a is not None:
+                _err(c, f'{name}: _depth_range is called with a version')
+    # ---- what save() does for a side the object does not have (a 7.5 cubemap written as 7.2-7.4 has no sphere map)
+    loop = None
+    for n in ast.walk(save):
+        if isinstance(n, ast.For) and ast.unparse(n.iter) == 'reversed(range(self.mipmap_count))':
+            loop = n
+    if loop is None:
+        _err(save, 'save: frame loop not found')
+    mv = loop.target.id if isinstance(loop.target, ast.Name) else '?'
+    want_dims = [f'max(self.width >> {mv}, 1)', f'max(self.height >> {mv}, 1)']
+    blank = False
+    lookups = 0
+    for n in ast.walk(loop):
+        if isinstance(n, ast.Try):
+            looks = [b for b in n.body if isinstance(b, ast.Assign) and isinstance(b.value, ast.Subscript) and ast.unparse(b.value.value) == 'self._frames']
+            if not looks:
+                continue
+            var = ast.unparse(looks[0].targets[0])
+            if len(n.body) != 1 or n.orelse or n.finalbody or len(n.handlers) != 1:
+                _err(n, 'save: try around the frame lookup not understood')
+            h = n.handlers[0]
+            if h.type is None or ast.unparse(h.type) != 'KeyError' or len(h.body) != 1 or not isinstance(h.body[0], ast.Assign) \
+                    or ast.unparse(h.body[0].targets[0]) != var:
+                _err(h, 'save: handler of the frame lookup not understood')
+            v = h.body[0].value
+            if isinstance(v, ast.Call) and ast.unparse(v.func) == 'Frame' and [ast.unparse(a) for a in v.args] == want_dims and not v.keywords:
+                blank = True
+            else:
+                _err(h, f'save: a missing side is replaced by {ast.unparse(v)}, expected Frame({", ".join(want_dims)})')
+        if isinstance(n, ast.Subscript) and ast.unparse(n.value) == 'self._frames':
+            lookups += 1
+        if isinstance(n, ast.Call) and ast.unparse(n.func) == 'self._frames.get':
+            _err(n, 'save: self._frames.get(...) in the frame loop is not understood')
+    if lookups != 1:
+        _err(loop, f'save: {lookups} frame table lookups in the frame loop')
+    info['missing_blank'] = blank
+    return info
+
+
 def layout_info() -> dict:
     tree = c15_norm.normalised_tree(src_text('vtf.py'))
     vtf = _find_class(tree, 'VTF')
@@ -866,6 +1069,7 @@ def layout_info() -> dict:
         'getitem': _pixel_access(frame, _find_method(frame, '__getitem__')),
         'setitem': _pixel_access(frame, _find_method(frame, '__setitem__')),
     }
+    info['sides'] = _sides_info(tree, vtf)
     rd = info['read']['dims']
     info['read_dims_max_shr'] = (rd.get('mip_width') == f'max(width >> {info["read"]["var"]}, 1)'
                                  and rd.get('mip_height') == f'max(height >> {info["read"]["var"]}, 1)')
@@ -886,8 +1090,10 @@ def _atoms_coq(atoms) -> str:
     return '[' + '; '.join(f'({v}, {c}, {b})' for v, c, b in atoms) + ']'
 
 
-def _order_coq(o) -> str:
+def _order_coq(o, sides_model: bool = False) -> str:
     m = {'mip_reversed': 'LMipReversed', 'frame': 'LFrame', 'depth_or_side': 'LDepthOrSide'}
+    if sides_model:
+        m = {'mip_reversed': 'VMipRev', 'frame': 'VFrame', 'depth_or_side': 'VSide'}
     return '[' + '; '.join(m[x] for x in o) + ']'
 
 
@@ -897,7 +1103,7 @@ def translate_layout() -> tuple[str, dict]:
     sc = info['scale']
     b = lambda x: 'true' if x else 'false'
     L = ['(* GENERATED by translate/c15_pixel.py from src/srctools/vtf.py and _py_vtf_readwrite.py. Do not edit. *)',
-         'From Coq Require Import ZArith NArith List Bool.', 'From SV Require Import Fmt.VtfLayout.',
+         'From Coq Require Import ZArith NArith List Bool.', 'From SV Require Import Fmt.VtfLayout Fmt.VtfSides.',
          'Import ListNotations.', '',
          f'(* VTF.__init__, vtf.py:{mip["line"]} *)',
          'Definition gen_mipcfg : mipcfg := {|',
@@ -909,6 +1115,12 @@ def translate_layout() -> tuple[str, dict]:
          'Fixpoint order_eqb (a b : list loopvar) : bool := match a, b with [], [] => true | x :: a\', y :: b\' => loopvar_eqb x y && order_eqb a\' b\' | _, _ => false end.',
          f'Definition save_order : list loopvar := {_order_coq(info["save"]["order"])}.',
          f'Definition read_order : list loopvar := {_order_coq(info["read"]["order"])}.',
+         f'Definition gen_save_order : list lvar := {_order_coq(info["save"]["order"], True)}.',
+         f'Definition gen_read_order : list lvar := {_order_coq(info["read"]["order"], True)}.',
+         f'(* VTF._depth_range, vtf.py:{info["sides"]["line"]}, and its callers save() / read() *)',
+         f'Definition gen_sidescfg : sidescfg := {{| sd_cmp := {info["sides"]["cmp"]}; sd_threshold := {info["sides"]["threshold"]}%Z;',
+         f'  sd_then := [{"; ".join(str(x) for x in info["sides"]["then"])}]%nat; sd_else := [{"; ".join(str(x) for x in info["sides"]["else"])}]%nat;',
+         f'  sd_save := {info["sides"]["save"]}; sd_read := {info["sides"]["read"]}; sd_missing_blank := {b(info["sides"]["missing_blank"])} |}}.',
          f'(* key tuples: save {info["save"]["key"]}  read {info["read"]["key"]} *)',
          f'Definition frame_key_is_frame_depth_mip : bool := {b(info["save"]["key"] == ["frame_ind", "depth_or_cube", "data_mipmap"] and info["read"]["key"] == ["frame_ind", "depth_or_cube", "data_mipmap"])}.',
          f'Definition read_dims_are_max_shr_1 : bool := {b(info["read_dims_max_shr"])}.',
